@@ -14,7 +14,7 @@ from .. import astutil as A
 from ..fa import FA
 from ..loader import AnalysisError
 from .valeq import check_typed_identity, check_json_bytes, check_enum_distinct
-from .ladders import extract_ladder, check_ladder_order, repo_subclass_pairs
+from .ladders import extract_ladder, check_ladder_order, repo_subclass_pairs, dispatch_model
 from .fresh import flow_nodes, alternatives, value_cases, param_rooted, return_cases, at_of, attr_writes, guarded_cases, static_value as _static
 
 MC = "serialization.MementoCodec"
@@ -643,9 +643,144 @@ def _name_values(fa: FA, name: ast.Name, at):
             if len(idx) != 1 or any(len(r) != len(tg.elts) for r in rows):
                 raise AnalysisError("%s: cannot match `%s` with a column of the table" % (fa.qual, name.id))
             out += [(r[idx[0]], d.node) for r in rows]
+        elif d.kind == "unpack" and isinstance(d.stmt, ast.Assign) and d.value is not None:
+            # `tag, value = <pair>` / `tag, value = describe(obj)`: the name's position in the pair(s) the right side may be
+            tgs = [t for t in d.stmt.targets if isinstance(t, (ast.Tuple, ast.List)) and any(isinstance(x, ast.Name) and x.id == name.id for x in t.elts)]
+            idx = [i for i, x in enumerate(tgs[0].elts) if isinstance(x, ast.Name) and x.id == name.id] if len(tgs) == 1 else []
+            pairs = _pairs_of(fa, d.value, d.node) if len(idx) == 1 and not any(isinstance(x, ast.Starred) for x in tgs[0].elts) else None
+            if not pairs or any(len(p_.elts) != len(tgs[0].elts) or any(isinstance(x, ast.Starred) for x in p_.elts) for (_f, p_, _a) in pairs):
+                raise AnalysisError("%s: cannot tell what `%s` holds (%s binding)" % (fa.qual, name.id, d.kind))
+            for (f2, p_, a2) in pairs:
+                if f2 is not fa:
+                    out.append((_Foreign(f2, p_.elts[idx[0]], a2), d.node))
+                else:
+                    out.append((p_.elts[idx[0]], a2))
         else:
             raise AnalysisError("%s: cannot tell what `%s` holds (%s binding)" % (fa.qual, name.id, d.kind))
     return out
+
+
+class _Foreign(ast.expr):
+    """An expression that lives in another function than the one being evaluated (what a helper / a table-held encoder
+    returns): evaluated there."""
+    _fields = ()
+
+    def __init__(self, fa, expr, at):
+        super().__init__()
+        self.fa, self.expr, self.at = fa, expr, at
+
+
+def _subst_names(e, env):
+    import copy
+    if not env:
+        return e
+
+    class T(ast.NodeTransformer):
+        def visit_Name(self, n):
+            if isinstance(n.ctx, ast.Load) and n.id in env:
+                return ast.copy_location(copy.deepcopy(env[n.id]), n)
+            return n
+
+    return T().visit(copy.deepcopy(e))
+
+
+def _callable_results(fa: FA, f, at, depth=0):
+    """[(FA, returned expr, cfg node)] of calling what the expression `f` denotes: a function of this repository (by name,
+    `cls.helper`), a lambda, the function a factory of this repository returns (`_encoded_as(ResultType.boolean)`: the
+    nested function it defines, with the factory's parameters written out as the arguments given), or a local that
+    holds one of those — assigned, or a column of a literal table a loop walks.  None when it cannot be told."""
+    if depth > 6:
+        return None
+    if isinstance(f, ast.Lambda):
+        return [(fa, f.body, at)]
+    if isinstance(f, ast.Name) and fa.df.is_local(f.id) and at is not None:
+        out = []
+        try:
+            vals = _name_values(fa, f, at)
+        except AnalysisError:
+            return None
+        for (v, a_) in vals:
+            r = _callable_results(fa, v, a_, depth + 1)
+            if r is None:
+                return None
+            out += r
+        return out
+    if isinstance(f, (ast.Name, ast.Attribute)):
+        probe = ast.copy_location(ast.Call(func=f, args=[], keywords=[]), f)
+        hr = _helper_results(fa, probe)
+        if hr is None and isinstance(f, ast.Name) and f.id in fa.fi.module.functions:
+            h = FA(fa.ck, fa.fi.module.functions[f.id])
+            hr = (h, [(r.value, h.nodes(r)[0]) for r in h.returns() if r.value is not None and h.nodes(r)])
+        if hr is None or not hr[1]:
+            return None
+        return [(hr[0], v, a_) for (v, a_) in hr[1]]
+    if isinstance(f, ast.Call):
+        # a factory: every value it returns is a function it defines (or a lambda); its parameters stand for the arguments
+        hr = _helper_results(fa, f)
+        if hr is None:
+            return None
+        g = hr[0]
+        params = [p_ for p_ in g.fi.params if p_ not in ("self", "cls")]
+        given = _call_args(f, params)
+        if given is None:
+            return None
+        env = {}
+        a_ = g.fi.node.args
+        pos = a_.posonlyargs + a_.args
+        for p_, dflt in list(zip([x.arg for x in pos[len(pos) - len(a_.defaults):]], a_.defaults)) + \
+                [(x.arg, dv) for x, dv in zip(a_.kwonlyargs, a_.kw_defaults) if dv is not None]:
+            env[p_] = dflt
+        env.update(given)
+        out = []
+        for (v, a2) in hr[1]:
+            inner = None
+            if isinstance(v, ast.Lambda):
+                inner = [(g, v.body, a2)]
+            elif isinstance(v, ast.Name) and v.id in g.fi.nested:
+                h = FA(fa.ck, g.fi.nested[v.id])
+                inner = [(h, r.value, h.nodes(r)[0]) for r in h.returns() if r.value is not None and h.nodes(r)]
+            if not inner:
+                return None
+            for (h, rv, a3) in inner:
+                own = set(h.fi.params) if h is not g else set()
+                out.append((h, _subst_names(rv, {k: v_ for k, v_ in env.items() if k not in own and not h.df.is_local(k)} if h is not g else env), a3))
+        return out
+    return None
+
+
+def _pairs_of(fa: FA, e, at, depth=0):
+    """[(FA, tuple literal, cfg node)] the expression may evaluate to: a tuple written in place, the arms of a conditional
+    expression, what a local holds, what the called function / table-held encoder returns.  None when it cannot be told."""
+    if depth > 6:
+        return None
+    if isinstance(e, (ast.Tuple, ast.List)):
+        return [(fa, e, at)]
+    if isinstance(e, ast.IfExp):
+        a, b = _pairs_of(fa, e.body, at, depth + 1), _pairs_of(fa, e.orelse, at, depth + 1)
+        return None if a is None or b is None else a + b
+    if isinstance(e, ast.Name) and fa.df.is_local(e.id) and at is not None:
+        ds = fa.df.reaching(at, e.id)
+        if not ds or not all(d.kind == "assign" and d.value is not None for d in ds):
+            return None
+        out = []
+        for d in ds:
+            r = _pairs_of(fa, d.value, d.node, depth + 1)
+            if r is None:
+                return None
+            out += r
+        return out
+    if isinstance(e, ast.Call):
+        res = _callable_results(fa, e.func, at, depth + 1)
+        if res is None:
+            return None
+        out = []
+        for (h, v, a_) in res:
+            r = _pairs_of(h, v, a_, depth + 1)
+            if r is None:
+                return None
+            out += r
+        return out
+    return None
 
 
 def _helper_results(fa: FA, e):
@@ -764,10 +899,64 @@ def _unrolled(fa: FA) -> FA:
     return FA(fa.ck, fi2)
 
 
+def _picked_from_table(fa: FA, e, at):
+    """`next(<elt> for <targets> in <literal table> [if ...])`, `next((...), <default>)`, `[<elt> for ...][0]`: one element of
+    a comprehension over a literal table -> the values it may be: the element expression written out for every row
+    of the table (whatever the filter says), plus the default.  None for anything else."""
+    import copy
+    comp, extra = None, []
+    if isinstance(e, ast.Call) and isinstance(e.func, ast.Name) and e.func.id == "next" and 1 <= len(e.args) <= 2 and not e.keywords:
+        comp, extra = e.args[0], list(e.args[1:])
+        if isinstance(comp, ast.Call) and isinstance(comp.func, ast.Name) and comp.func.id == "iter" and len(comp.args) == 1:
+            comp = comp.args[0]
+    elif isinstance(e, ast.Subscript) and isinstance(e.slice, ast.Constant) and isinstance(e.slice.value, int):
+        comp = e.value
+    if isinstance(comp, ast.Name) and fa.df.is_local(comp.id) and at is not None:
+        ds = fa.df.reaching(at, comp.id)
+        if len(ds) == 1 and ds[0].kind == "assign" and isinstance(ds[0].value, (ast.GeneratorExp, ast.ListComp)):
+            comp, at = ds[0].value, ds[0].node
+    if not isinstance(comp, (ast.GeneratorExp, ast.ListComp)) or len(comp.generators) != 1:
+        return None
+    g = comp.generators[0]
+    tg = g.target
+    if isinstance(tg, ast.Name):
+        it = _static(fa, g.iter, at)
+        if not isinstance(it, (ast.Tuple, ast.List)) or any(isinstance(x, ast.Starred) for x in it.elts):
+            return None
+        names, rows = [tg.id], [[x] for x in it.elts]
+    elif isinstance(tg, (ast.Tuple, ast.List)) and all(isinstance(t, ast.Name) for t in tg.elts):
+        rows = _literal_rows(fa, g.iter, at)
+        if rows is None or any(len(r) != len(tg.elts) for r in rows):
+            return None
+        names = [t.id for t in tg.elts]
+    else:
+        return None
+    out = []
+    for row in rows:
+        env = dict(zip(names, row))
+
+        class T(ast.NodeTransformer):
+            def visit_Name(self, n):
+                if isinstance(n.ctx, ast.Load) and n.id in env:
+                    return ast.copy_location(copy.deepcopy(env[n.id]), n)
+                return n
+
+        out.append(T().visit(copy.deepcopy(comp.elt)))
+    return out + extra
+
+
 def _members(fa: FA, e, at, depth=0):
     """ResultType members the expression may denote."""
     if depth > 8:
         raise AnalysisError("%s: tag expression too deep" % fa.qual)
+    if isinstance(e, _Foreign):
+        return _members(e.fa, e.expr, e.at, depth + 1)
+    picked = _picked_from_table(fa, e, at)
+    if picked is not None:
+        out = set()
+        for v in picked:
+            out |= _members(fa, v, at, depth + 1)
+        return out
     hr = _helper_results(fa, e)
     if hr is not None:
         out = set()
@@ -804,6 +993,8 @@ def _tags(fa: FA, e, at, depth=0):
     """The wire tags (strings) the expression may evaluate to."""
     if depth > 8:
         raise AnalysisError("%s: tag expression too deep" % fa.qual)
+    if isinstance(e, _Foreign):
+        return _tags(e.fa, e.expr, e.at, depth + 1)
     if A.const_str(e) is not None:
         return {A.const_str(e)}
     if A.is_none(e):
@@ -825,6 +1016,12 @@ def _tags(fa: FA, e, at, depth=0):
         return out
     if isinstance(e, ast.Call) and A.call_attr(e) == "str" and len(e.args) == 1:
         return _tags(fa, e.args[0], at, depth + 1)
+    picked = _picked_from_table(fa, e, at)
+    if picked is not None:
+        out = set()
+        for v in picked:
+            out |= _tags(fa, v, at, depth + 1)
+        return out
     hr = _helper_results(fa, e)
     if hr is not None:
         out = set()
@@ -924,6 +1121,48 @@ def _decoded_tags(ck, da: FA, units):
                     for e in tbl.keys:
                         tags_in |= _tags(fu, e, None if e not in list(ast.walk(look)) else fu.nodes(n)[0])
     return tags_in
+
+
+_CLASS_TAGS = {"bool": "boolean", "str": "string", "bytes": "binary", "int": "number", "float": "number", "list": "list_result",
+               "tuple": "list_result", "dict": "dictionary", "datetime.datetime": "timestamp", "datetime.date": "date"}
+
+
+def check_class_tags(ck, R, ea: FA, pairs):
+    """The typed {type, value} encoding is read by other language implementations: the tag says which class the value has.
+    The set of emitted tags can be complete (and agree with the decoder) while two classes carry each other's tag -- an
+    int written as 'boolean', a datetime as 'date' -- which round-trips here and is misread everywhere else.  Decided on
+    what the dispatch answers for a value of each class (abstract run of the function under the class hierarchy): the tag
+    of the document returned for class K is K's tag of the frozen cross-language table.  Only definite deviations are
+    reported; outcomes whose tag cannot be read off (built by a helper the run does not enter) are left to the tag-set rule."""
+    D = dispatch_model(ck, ea, pairs)
+    if D is None:
+        return
+    named = set(D.named())
+    for k, want in sorted(_CLASS_TAGS.items()):
+        if k not in named:
+            continue
+        got = set()
+        for (how, text) in D.outcome((k, "exact", "actual")):
+            if how != "return":
+                continue
+            try:
+                tree = ast.parse(text, mode="eval").body
+            except SyntaxError:
+                continue
+            items = _dict_items(tree)
+            for key, v in items or []:
+                if key != "type":
+                    continue
+                if isinstance(v, ast.Attribute) and v.attr == "name" and isinstance(v.value, ast.Attribute) and A.norm(v.value.value) == "ResultType":
+                    got.add(v.value.attr)
+                elif A.const_str(v) is not None:
+                    got.add(A.const_str(v))
+        if not got:
+            continue
+        ok = got == {want}
+        ck.ob(R, ea.key(None, "class-tag:" + k), ok, "a %s argument is tagged '%s'" % (k, want) if ok else
+              "a %s argument is written with the tag %s; the cross-language encoding says '%s': the document still decodes here, but the "
+              "tag no longer tells other implementations what the value is" % (k, sorted(got), want), ea.where(D.where_of(k)))
 
 
 def check_plain_json(ck, R):
@@ -1211,9 +1450,13 @@ def check(ck):
             continue  # the other public encoders are not part of this dispatch
         eu = _unrolled(ea if fi_ is ea.fi else FA(ck, fi_))
         lad = extract_ladder(eu.node)
-        if lad:
+        # (a dispatch that is not a chain of `if isinstance(...)` statements at all — a first match picked from a table
+        # by next(...), an or-chain of family encoders — is decided on the abstract run of the function)
+        D = None if lad else dispatch_model(ck, eu, pairs)
+        if lad or (D is not None and len(D.named()) >= 2):
             n += check_ladder_order(ck, R5, eu, lad, pairs, "wire-encode")
     ck.need(n >= 2, "encode_arg ladder: bool/int and datetime/date not comparable (%d)" % n)
+    ck.run(check_class_tags, ck, "C11.R3", ea, pairs)
     ck.run(check_typed_identity, ck, "C11.R6", ("serialization", "reference"))
     ck.run(check_enum_distinct, ck, "C11.R3")
     ck.run(check_json_bytes, ck, "C11.R3", ["storage_base.DataSourceMetadataSource.put_memento", "storage_base.DefaultCodec.JsonExceptionStrategy.encode"])
